@@ -93,6 +93,7 @@ type Store struct {
 	maxCompactionLevels  int
 	SlowLogThreshold     time.Duration
 	MetaCtx              *MetaContext
+	parent               *Store // set for contextual stores: the store that owns the rolling id txn
 }
 
 type BadgerLogger struct { // we use this to implement the Badger Logger interface
@@ -118,6 +119,7 @@ func NewContextualStore(store *Store) *Store {
 		valueLogFileSize:     store.valueLogFileSize,
 		maxCompactionLevels:  store.maxCompactionLevels,
 		SlowLogThreshold:     store.SlowLogThreshold,
+		parent:               store,
 		MetaCtx: &MetaContext{
 			QueriedDatasets: make(map[uint32]struct{}),
 			TransactionSink: make(map[string]struct{}),
@@ -1401,6 +1403,10 @@ func (s *Store) getIDForURI(txn *badger.Txn, uri string) (uint64, bool, error) {
 }
 
 func (s *Store) commitIDTxn() error {
+	if s.parent != nil {
+		// datasets assert new ids in the id txn of the store they belong to, not in this copy
+		return s.parent.commitIDTxn()
+	}
 	s.idmux.Lock()
 	defer s.idmux.Unlock()
 
